@@ -159,6 +159,25 @@ template <class G> struct C12 {
       TD ed = t.template cast<Du>() - (Yd - Xd);
       double dv = 0; for (int i = 0; i < D; ++i) dv = vf::accmax(vf::accmax(dv, std::fabs(rd.coeffs()(i).a - ed.coeffs()(i).a)), (double)vf::maxabs((rd.coeffs()(i).v - ed.coeffs()(i).v)));
       close(dv / std::max((ref::Real)1, (ref::Real)vf::maxabs(e.coeffs())), 1e-12L, "functor_computes_documented_residual", "constraint<Dual>/" + key);
+      // a second constraint with another covariance, and the first one re-weighted afterwards: the weighting belongs to the object
+      // (seed C12c cached the first square-root information matrix in a function-local static).  Diagonal covariance
+      // diag(1/(i+2)^2) => sqrt information = diag(i+2), so the expected residual is e_i*(i+2), computed here by hand.
+      typename manif::CeresConstraintFunctor<G>::Covariance C = manif::CeresConstraintFunctor<G>::Covariance::Zero();
+      for (int i = 0; i < D; ++i) C(i, i) = 1.0 / ((i + 2.0) * (i + 2.0));
+      // (const references: with a non-const lvalue the variadic forwarding constructor of the functor is the better match)
+      manif::CeresConstraintFunctor<G> cf2(static_cast<const T&>(t), static_cast<const typename manif::CeresConstraintFunctor<G>::Covariance&>(C));
+      for (int pass = 0; pass < 2; ++pass) {
+        if (pass == 1) cf.setMeasurementCovariance(C);
+        const manif::CeresConstraintFunctor<G>& f = pass == 0 ? cf2 : cf;
+        const std::string nm = pass == 0 ? "constraint_second_covariance" : "constraint_after_setMeasurementCovariance";
+        T r2; f(X.data(), Y.data(), r2.data());
+        double d2 = 0; for (int i = 0; i < D; ++i) d2 = vf::accmax(d2, std::fabs((double)r2.coeffs()(i) - (double)e.coeffs()(i) * (i + 2.0)) / (i + 2.0));
+        close(d2 / std::max((ref::Real)1, (ref::Real)vf::maxabs(e.coeffs())), 1e-12L, "functor_computes_documented_residual", nm + "<double>/" + key);
+        TD rd2; f(Xd.data(), Yd.data(), rd2.data());
+        double dv2 = 0;
+        for (int i = 0; i < D; ++i) { Du want = ed.coeffs()(i) * Du(i + 2.0); dv2 = vf::accmax(vf::accmax(dv2, std::fabs(rd2.coeffs()(i).a - want.a) / (i + 2.0)), (double)vf::maxabs((rd2.coeffs()(i).v - want.v)) / (i + 2.0)); }
+        close(dv2 / std::max((ref::Real)1, (ref::Real)vf::maxabs(e.coeffs())), 1e-11L, "functor_computes_documented_residual", nm + "<Dual>/" + key);
+      }
     }
   }
   template <class F> void manifold_plus(const F& lp, const G& X, const T& t, const std::string& key, const char* name) {
